@@ -963,6 +963,42 @@ func runC16(c *CaseCtx) *CaseResult {
 						return "", err
 					}
 				}
+				if i == 110 && root.Kind == KMap && len(root.M) > 4 {
+					// ERROR PATHS inside library calls, half-way through the history: whatever a failing call took from
+					// the process-wide pools must go back exactly once, or another goroutine ends up sharing it.
+					// (a) a ledger read fails during a mutable iteration over a cold map
+					if err := w.Commit(false, 2); err != nil {
+						return "", err
+					}
+					w.DropCache()
+					w.led.ResetFaultCounters()
+					w.led.FailRetrieve = func(n int, _ atree.SlabID) bool { return n == 2 }
+					seen := 0
+					ierr := root.Map.Iterate(w.cb.Compare, w.cb.HashInput, func(k, v atree.Value) (bool, error) {
+						seen++
+						return true, nil
+					})
+					w.led.FailRetrieve = nil
+					w.logOp("mutable iteration with a failing ledger read: %d entries, failed=%v", seen, ierr != nil)
+					// (b) the iterator's next key disappears before the following Next (unsupported use: the outcome is
+					// recorded in the transcript, not judged)
+					exp, err := w.expectedMapOrder(root)
+					if err != nil {
+						return "", err
+					}
+					it, err := root.Map.Iterator(w.cb.Compare, w.cb.HashInput)
+					if err != nil {
+						return "", viol("iter", "Iterator failed: %v", err)
+					}
+					if _, _, err := it.Next(); err != nil {
+						return "", viol("iter", "Next failed: %v", err)
+					}
+					if err := w.OpMapRemove(root, exp[1].k); err != nil {
+						return "", err
+					}
+					_, _, nerr := it.Next()
+					w.logOp("Next after the next key was removed: failed=%v", nerr != nil)
+				}
 				if i%55 == 0 {
 					if err := w.CheckTree(true); err != nil {
 						return "", err
